@@ -65,6 +65,33 @@ def mergeTrees {E : Type} [DecidableEq E] (f : E → E → E) (a g : AList K E) 
 /-- the default merge function of `crdt.LWW`: `*LastWriteWins(&av, &rv)` -/
 def lww (av rv : Entry V) : Entry V := lastWriteWins av rv
 
+/-- `DB.TraceHistory`: the raw entry of `k` (tombstones included — the source reads the mast
+    directly) is reported when it is older than the cutoff inherited from the previous report and
+    not older than `after`; then the version recorded as its `PreviousRoot` is opened and the walk
+    goes on with the reported time as the new cutoff.  (An `Open` restricted to one version has
+    that version as its only merge source, so every round of the source's loop has one element.)
+    `store` maps version names to their contents (`none`: cannot be opened — the source returns an
+    error; here the walk ends).  `fuel` bounds the number of versions visited. -/
+def atOrAbove (cutoff : Option Int) (m : Int) : Bool :=
+  match cutoff with
+  | some c => decide (m ≥ c)
+  | none => false
+
+def trace (store : String → Option (Tree K V)) (after : Int) (k : K) :
+    Nat → Tree K V → Option Int → List (Int × Option V)
+  | 0, _, _ => []
+  | fuel + 1, t, cutoff =>
+    match lookup k t with
+    | none => []
+    | some e =>
+      if atOrAbove cutoff e.mod then []
+      else if e.mod < after then []
+      else (e.mod, e.val) ::
+        (if e.prev = "" then []
+         else match store e.prev with
+           | none => []
+           | some t' => trace store after k fuel t' (some e.mod))
+
 /-- `innerValue`: what `Diff` compares -/
 def inner (e : Option (Entry V)) : Option V :=
   match e with
